@@ -240,14 +240,6 @@ theorem time_roundtrip (t : Time) (ht : TStrict t) : time_from_str (timeText t) 
 
 /-! ### NaiveDateTime -/
 
-/-- discharges `InType` for a literal record whose fields are small -/
-macro "small_fields" : tactic =>
-  `(tactic| (refine inType_of_small _ ?_ ?_ rfl <;>
-      simp only [List.mem_cons, List.not_mem_nil, or_false, forall_eq_or_imp, forall_eq] <;>
-      refine ⟨?_, ?_, ?_, ?_, ?_, ?_, ?_, ?_, ?_, ?_, ?_, ?_⟩ <;> intro x hx <;>
-      first | (cases hx; done) | (injection hx with hx; omega) |
-        (split at hx <;> first | (cases hx; done) | (injection hx with hx; omega))))
-
 /-- date and time fields of an existing date and time of day, no timestamp: exactly that date-time -/
 theorem naive_resolves (p : Parsed) (hp : InType p) (off : Int) (hoff : -2147483648 ≤ off ∧ off ≤ 2147483647)
     (y : Int) (o : Nat) (hvd : VD y o) (t : Time) (ht : TStrict t)
